@@ -62,7 +62,7 @@ def run(tier, seed, replay=None):
         go_restart(800, seed + 1000)
     return ck.finish(
         ob,
-        rule="each case = one complete run of 1..4 real processes (ProgObserver + QMThread, stub job execution) on a job file of 1..8 jobs, cache 1..3; the parent "
+        rule="every WRITE_JOBS event must lie between the lock and the release of its process (anything else is a divergence from the model); one run in four stalls processes that sit inside WRITE_JOBS until nobody else can move. each case = one complete run of 1..4 real processes (ProgObserver + QMThread, stub job execution) on a job file of 1..8 jobs, cache 1..3; the parent "
              "chooses at random which process advances at every hook point (lock request, lock held, merged, back-up written, about to write, each record "
              "written, about to release, job execution); one run in three kills a random process at a random hook point (also in the middle of writing the "
              "back-up or the job file) and records whether file and back-up parse there. the interleaving is replayed on the model; clauses are judged on "
